@@ -555,6 +555,13 @@ LtDate(tv) ==
 (*  - where the prefix used in an xsi:type value is declared: the QName is resolved with the          *)
 (*    namespaces IN SCOPE AT ITS ELEMENT (XSD part 1, 3.3.4 clause 4 / Namespaces in XML 6.1), a       *)
 (*    declaration on the element overrides the root's                                                *)
+(*  - the API entry point that evaluates the expression and where the schema is handed over (to the    *)
+(*    parser, to the call, to both)                                                                   *)
+(*  - the dynamic context: a root, or NO root and a context item (element, attribute, text node) of   *)
+(*    an already built, untyped node tree from which the probe navigates to the typed node            *)
+EntryPoints == {"select", "iter_select", "Selector.select", "Selector.iter_select", "Selector.select+call",
+                "Selector.iter_select+call", "token.get_results", "token.select_results"}
+CtxItems == {"element", "attribute", "text"}
 DocEnvs  == {"plain", "prolog", "epilog", "both"}
 NsPlaces == {"root", "self", "redecl"}
 RootBinding(place) == CASE place = "root" -> "urn:t" [] place = "self" -> "unbound" [] place = "redecl" -> "urn:other"
@@ -590,6 +597,8 @@ Vec(S, inst) ==
                   IN IF \E x \in 1..Len(as) : A[as[x]].tv = NoValue \/ Len(A[as[x]].tv) # 1 THEN RK("na")
                      ELSE SumProbe([x \in 1..Len(as) |-> A[as[x]].tv[1]]),
       envs    |-> DocEnvs,
+      entries |-> EntryPoints,
+      items   |-> CtxItems,
       nsplaces |-> NsPlaces,
       \* value comparisons of the big-number nodes with literals and with each other: <<.., op, holds>>
       cmplit  |-> [n \in 1..Len(f) |-> IF bign(n) THEN {<<K, op, OpHolds(op, BigCmp(A[n].tv[1], VBig("lit", K)))>> :
